@@ -1079,7 +1079,7 @@ func (g *gen) idiom(d int, top bool) []stmtText {
 	e := func() string { return g.w(g.expr(kAny, d-1), pAssign) }
 	c := func() string { return g.condTest(d - 1).s }
 	cp := func() string { return g.w(g.condTest(d-1), pBitOr) }
-	switch r.Intn(37) {
+	switch r.Intn(41) {
 	case 33, 34: // several var declarations in one function (hoisting) with a destructuring declarator after initialised ones:
 		// the pattern must not be moved in front of the initialisers it follows (K121)
 		a, b, z := g.fresh("v"), g.fresh("v"), g.fresh("v")
@@ -1088,6 +1088,45 @@ func (g *gen) idiom(d int, top bool) []stmtText {
 		first := r.Pick(a+"="+h()+"(1)", a+"=5", a+"="+e())
 		mid := r.Pick("", "", ","+g.fresh("v"), ","+g.fresh("v")+"="+h()+"(2)")
 		return one(h()+"(function(){var "+z+";"+h()+"(0);var "+first+mid+","+pat+";return["+a+","+b+"]}())", true)
+	case 37, 38: // inner scopes of every kind whose own declarations already carry the short names the renamer hands out first
+		// (e, t, n, r, i): if such a scope is skipped by the renamer, the enclosing function's renamed variables are captured
+		g.kindHit("idiom:short-names-in-inner-scope")
+		f, p1, p2 := g.fresh("f"), g.fresh("p"), g.fresh("p")
+		g.declare(&variable{name: f, k: kFn, decl: "fn", arity: 2})
+		sn := r.Pick("e", "t", "n", "r", "i")
+		sn2 := r.Pick("e", "t", "n")
+		use := h() + "(" + sn + "," + p1 + "," + p2 + ")"
+		var body string
+		switch r.Intn(7) {
+		case 0:
+			body = "try{" + h() + "(1)}finally{let " + sn + "=" + h() + "(2);" + use + "}"
+		case 1:
+			body = "try{throw " + p1 + "}catch(" + sn + "){" + use + "}"
+		case 2:
+			body = "try{throw 1}catch{let " + sn + "=" + p2 + "+1;" + use + "}"
+		case 3:
+			body = "{let " + sn + "=" + p1 + "+" + p2 + ";" + use + "}"
+		case 4:
+			body = "for(let " + sn + "=0;" + sn + "<1;" + sn + "++){" + use + "}"
+		case 5:
+			body = "switch(" + p1 + "){default:let " + sn + "=" + p2 + ";" + use + "}"
+		default:
+			body = "try{" + h() + "(1)}catch(" + sn2 + "){}finally{const " + sn + "=[" + p1 + "];" + use + "}"
+		}
+		return []stmtText{{s: "function " + f + "(" + p1 + "," + p2 + "){" + body + "}", fn: true}, {s: f + "(3,4)", semi: true}}
+	case 39, 40: // shorthand properties and patterns over a renamed local of an ENCLOSING scope: the property name stays
+		g.kindHit("idiom:shorthand-from-enclosing-scope")
+		f := g.fresh("f")
+		g.declare(&variable{name: f, k: kFn, decl: "fn", arity: 1})
+		nm := r.Pick("name", "value", "key", "alpha")
+		inner := r.Pick(
+			"return function(){return{"+nm+"}}()",
+			"return(()=>({"+nm+"}))()",
+			"{let q=1;return{"+nm+",q}}",
+			"for(var k=0;k<1;k++){"+h()+"({"+nm+"})}return 0",
+			"var o={"+nm+":5};return function(){({"+nm+"}=o);return "+nm+"}()",
+			"return function(o){var{"+nm+"="+nm+"}=o;return "+nm+"}({})")
+		return []stmtText{{s: "function " + f + "(" + nm + "){" + inner + "}", fn: true}, {s: h() + "(JSON.stringify(" + f + "(7)))", semi: true}}
 	case 35, 36: // an if / else whose branch is a labelled block ending in a break to its own label: control continues after
 		// the if, so the else must not be flattened into the surrounding list (lastStmt does not look through labels)
 		g.kindHit("idiom:labelled-block-branch")
